@@ -469,7 +469,7 @@ pub fn session<E: SimEnv>(cfg: &SessionCfg, cs: &mut EnvCensus, out: &mut Sessio
                     return efail(step, "step", "queue_not_empty_after_step", format!("{} instructions left", p.len()), &batch);
                 }
             }
-            match infer_and_advance(&env, &mut shadow, &mut rshadow, &batch, &new_ids, start, step_size, &hint, 400_000) {
+            match infer_and_advance(&env, &mut shadow, &mut rshadow, &batch, &new_ids, start, step_size, &hint, 1_500_000) {
                 Infer::Consistent { by_hint, candidates_tried, order } => {
                     if by_hint {
                         cs.schedules_by_hint += 1;
